@@ -774,6 +774,25 @@ theorem steps_sum_simple (lens avail : List Rat) (b : Nat) (hb : b ≠ 0) :
     obtain ⟨l, _, rfl⟩ := hrow
     simp
 
+/-- **a scalar availability of exactly 0 is honoured** (decay-only history): every cycle gets
+availability 0 — not the default 1 — and every step has length 0 = 0 × cycle length -/
+theorem availability_zero_honoured (nCycles b : Nat) (cl : Rat) (hb : b ≠ 0) :
+    availabilitySimple none (some 0) nCycles = List.replicate nCycles 0
+    ∧ (stepLengthsSimple (cycleLengthsSimple none (some cl) nCycles) (availabilitySimple none (some 0) nCycles) b).map List.sum
+        = List.replicate nCycles 0 := by
+  refine ⟨rfl, ?_⟩
+  rw [(steps_sum_simple _ _ b hb).1]
+  simp only [availabilitySimple, cycleLengthsSimple, listOrScalar]
+  induction nCycles with
+  | zero => rfl
+  | succ n ih => simp only [List.replicate_succ, List.zipWith_cons_cons, mul_zero, ih]
+
+/-- the list form wins over the scalar, the scalar over the default -/
+theorem listOrScalar_spec (x : Rat) (xs : List Rat) (sc : Option Rat) (v : Rat) (n : Nat) (d : List Rat) :
+    listOrScalar (some (x :: xs)) sc n d = x :: xs ∧ listOrScalar none (some v) n d = List.replicate n v
+    ∧ listOrScalar (some []) (some v) n d = List.replicate n v ∧ listOrScalar none none n d = d := by
+  exact ⟨rfl, rfl, rfl, rfl⟩
+
 /-- **detailed inputs: step lengths sum to availability × cycle length** for each of the three
 ways a cycle can be given (step days, cumulative days, burn steps + cycle length) -/
 theorem steps_sum_detailed (a : Rat) (ha : a ≠ 0) (c : CycleSpec) :
